@@ -430,7 +430,11 @@ class TDMProgram(Program):
 
         if self.space_unrolled_circuit is not None:
             if self._num_added_subsystems > 0:
-                self._delete_subsystems(self.register[-self._num_added_subsystems :])
+                # remove the subsystems added by space-unrolling altogether (rather than marking them
+                # inactive), so that the register is exactly the original one again
+                for ref in self.register[-self._num_added_subsystems :]:
+                    del self.reg_refs[ref.ind]
+                    self.unused_indices.discard(ref.ind)
                 self.init_num_subsystems -= self._num_added_subsystems
                 self._num_added_subsystems = 0
 
